@@ -6,6 +6,11 @@
 (*   "create" : Build in one call, then read the payload length back       *)
 (*   "split"  : copy ; id fields ; finalize  (must equal Build)            *)
 (*   "long"   : finalize alone for every length the 9-bit field expresses  *)
+(*   "inplace": the payload source lies INSIDE the PDU buffer (a message of *)
+(*              the other kind is rebuilt in place: brief -> full reads    *)
+(*              its payload at header offset 8, full -> brief at 16); for  *)
+(*              up to 8 bytes source and destination do not overlap, but   *)
+(*              the header stores of the builder land on the source        *)
 (*   "near"   : Build on prior contents that are Build's own result with   *)
 (*              one header bit flipped / stale pad bytes / one payload bit *)
 (*              flipped ("message already in place" short cuts)            *)
@@ -41,7 +46,7 @@ CInitNear ==
    \E img \in NearImages(kind, len, id, fd, Payload(0, len), k + 1) :
      /\ hb = [b \in Buf |-> 2] /\ out = Sentinel /\ n = 0 /\ acc = << >>
      /\ mem = [b \in Buf |-> img]
-     /\ step = CanOp("start", kind, id, fd, len, Payload(0, len)) @@ [base |-> 2, pre |-> << >>, post |-> << >>, ret |-> 0]
+     /\ step = CanOp("start", kind, id, fd, len, Payload(0, len)) @@ [base |-> 2, pre |-> << >>, post |-> << >>, ret |-> 0, srcoff |-> 9999]
 
 CInitPlain ==
   \E kind \in Kinds : \E len \in Lens : \E k \in 1..NBg : \E pre \in {0, 1} :
@@ -49,15 +54,22 @@ CInitPlain ==
      /\ mem = [b \in Buf |->
                  LET a == Pat(k, ArenaLen(kind, len)) IN
                  IF pre = 0 THEN InitSem(a, 2, ViewOf(kind)) ELSE a]    \* fresh Init, or every field non-zero
-     /\ step = CanOp("start", kind, Zero64, 0, len, << >>) @@ [base |-> 2, pre |-> << >>, post |-> << >>, ret |-> 0]
-CInit == IF Scn = "near" THEN CInitNear ELSE CInitPlain
+     /\ step = CanOp("start", kind, Zero64, 0, len, << >>) @@ [base |-> 2, pre |-> << >>, post |-> << >>, ret |-> 0, srcoff |-> 9999]
 
-DoCan(o) ==
+DoCanAt(o, srcoffNext) ==
   \E r \in { CanApply(mem[1], hb[1], o) } :
      /\ mem' = [mem EXCEPT ![1] = r.post]
-     /\ step' = o @@ [base |-> hb[1], pre |-> mem[1], post |-> r.post, ret |-> r.ret]
+     /\ step' = o @@ [base |-> hb[1], pre |-> mem[1], post |-> r.post, ret |-> r.ret, srcoff |-> srcoffNext]
      /\ UNCHANGED <<hb, out>>
 
+DoCan(o) == DoCanAt(o, 9999)        \* (9999: the payload is a separate object)
+Other(kind) == IF kind = "full" THEN "brief" ELSE "full"
+CInitInplace ==
+  \E kind \in Kinds : \E len \in { l \in Lens : l <= 8 } : \E k \in 1..NBg : \E id \in NearIds : \E fd \in {0, 1} :
+     /\ hb = [b \in Buf |-> 2] /\ out = Sentinel /\ n = 0 /\ acc = << >>
+     /\ mem = [b \in Buf |-> Build(Pat(k + 1, ArenaLen("full", len)), 2, Other(kind), V64(77), fd, Payload(1, len))]
+     /\ step = CanOp("start", kind, id, fd, len, << >>) @@ [base |-> 2, pre |-> << >>, post |-> << >>, ret |-> 0, srcoff |-> 9999]
+CInit == IF Scn = "near" THEN CInitNear ELSE IF Scn = "inplace" THEN CInitInplace ELSE CInitPlain
 CNext ==
   /\ n' = n + 1
   /\ LET kind == step.kind  len == step.len IN
@@ -74,6 +86,10 @@ CNext ==
                     (DoCan(CanOp("idfields", kind, id, fd, len, << >>))
                      /\ acc' = Build(step.pre, hb[1], kind, id, fd, step.payload))
             \/ /\ n = 2 /\ DoCan(CanOp("finalize", kind, Zero64, 0, len, << >>)) /\ acc' = acc
+       [] Scn = "inplace" ->
+            /\ n = 0 /\ acc' = acc
+            /\ LET so == hb[1] + HdrLen[ViewOf(Other(kind))] IN
+               DoCanAt(CanOp("create", kind, step.id, step.fd, len, SubBytes(mem[1], so, len)), so)
        [] Scn = "near" ->
             /\ n = 0 /\ DoCan(CanOp("create", kind, step.id, step.fd, len, step.payload)) /\ acc' = acc
        [] Scn = "long" ->
